@@ -8,4 +8,4 @@ Extraction "C19_model.ml"
   build_dhcp4_reply build_response_pool build_response_resolved ref_decode4 opt_value count_opt
   serialize6 parse_message6 tlv6_all
   build_relay_forward build_relay_reply unwrap_relay_reply relay_txid unwrap_relay extract_relay_message
-  rewrite_v6_lifetimes replace_server_duid get_server_duid unwrap_relay_reply6 raw_option_valid ref_routes sub_tlv relay_forward4 relay_reply4 proxy_reply4 build_response6 raw_option6_valid.
+  rewrite_v6_lifetimes replace_server_duid get_server_duid unwrap_relay_reply6 raw_option_valid ref_routes sub_tlv relay_forward4 relay_reply4 proxy_reply4 build_response6 raw_option6_valid resolve_v4 resolve_and_reply.
